@@ -98,8 +98,77 @@ pub fn chain(kind: &str, depth: usize) -> Value {
     v
 }
 
-pub fn exec(_label: &str, input: &str, out: &mut CaseOut) {
+/// a writer that takes `left` bytes and then fails (a full buffer, a closed socket)
+struct FailAfter {
+    left: usize,
+}
+impl std::io::Write for FailAfter {
+    fn write(&mut self, buf: &[u8]) -> std::io::Result<usize> {
+        if self.left == 0 {
+            return Err(std::io::Error::new(std::io::ErrorKind::WriteZero, "buffer full"));
+        }
+        let n = buf.len().min(self.left);
+        self.left -= n;
+        Ok(n)
+    }
+    fn flush(&mut self) -> std::io::Result<()> {
+        Ok(())
+    }
+}
+
+/// The value is written into writers that fail at every offset of its text (an error, never a panic), several hundred
+/// failed writes on this thread; AFTERWARDS ordinary values are offered to every encoder: whatever a writer keeps
+/// between calls must not turn an earlier failure into a panic or an error on a value that used to encode.
+fn failing_writers(v: &Value, out: &mut CaseOut) {
+    use libhaystack::encoding::zinc::encode::ToZinc;
+    let full = match to_zinc_string(v) {
+        Ok(t) => t,
+        Err(_) => return,
+    };
+    let step = (full.len() / 150).max(1);
+    let mut k = 0;
+    while k < full.len() {
+        for _ in 0..3 {
+            let mut w = FailAfter { left: k };
+            match catch_unwind(AssertUnwindSafe(|| v.to_zinc(&mut w).is_ok())) {
+                Err(_) => out.fail("panic_zinc", format!("to_zinc panicked when its writer failed after {k} bytes, on {}", vx::show(v))),
+                Ok(true) => out.fail("harness", format!("to_zinc succeeded into a writer that fails after {k} of {} bytes", full.len())),
+                Ok(false) => {}
+            }
+        }
+        k += step;
+    }
+    out.stat("after_failed_writes");
+    // afterwards: ordinary values, and the value itself, still encode
+    let mut d = Dict::new();
+    d.insert("a".into(), Value::List(vec![Value::make_number(1.0)]));
+    d.insert("dis".into(), Value::make_str("x"));
+    let ordinary = [
+        Value::List(vec![Value::make_number(1.0)]),
+        Value::Dict(d.clone()),
+        Value::Grid(Grid::make_from_dicts(vec![d])),
+        crate::c02::wf_chain("mix", 12),
+        v.clone(),
+    ];
+    for o in &ordinary {
+        match catch_unwind(AssertUnwindSafe(|| to_zinc_string(o))) {
+            Err(_) => out.fail("panic_zinc", format!("after failed writes on this thread, to_zinc_string panics on {}", vx::show(o))),
+            Ok(Err(e)) => out.fail("enc_err_after_failures", format!("after failed writes on this thread, to_zinc_string fails ({e}) on {}", vx::show(o))),
+            Ok(Ok(_)) => {}
+        }
+        encode_all(o, out, false);
+    }
+}
+
+pub fn exec(label: &str, input: &str, out: &mut CaseOut) {
     let (mode, rest) = input.split_once(' ').unwrap_or((input, ""));
+    if label == "failwriter" {
+        if let Some(v) = vx::parse(rest) {
+            out.nontrivial = true;
+            failing_writers(&v, out);
+        }
+        return;
+    }
     match mode {
         "v" => match vx::parse(rest) {
             Some(v) => {
@@ -262,8 +331,23 @@ pub fn generate(ctx: &mut Ctx) {
         named.push(Value::List(vec![t.clone(), Value::Dict(dd.clone())]));
         named.push(Value::Grid(Grid::make_from_dicts(vec![dd])));
     }
+    // grids far wider than they are long: 4097 and 5000 columns, without rows, with one row, nested in a list
+    for ncols in [4097usize, 5000] {
+        let cols: Vec<Column> = (0..ncols).map(|i| Column { name: format!("c{i}"), meta: None }).collect();
+        let mut row = Dict::new();
+        row.insert("c0".into(), Value::make_number(1.0));
+        row.insert(format!("c{}", ncols - 1), Value::Marker);
+        let g0 = Grid { meta: None, columns: cols.clone(), rows: vec![], ver: "3.0".into() };
+        let g1 = Grid { meta: None, columns: cols, rows: vec![row], ver: "3.0".into() };
+        named.push(Value::Grid(g0));
+        named.push(Value::List(vec![Value::Grid(g1)]));
+    }
     for v in named {
         ctx.case("named", &format!("v {}", vx::show(&v)));
+    }
+    // writers that fail at every offset, then ordinary values
+    for (kind, depth) in [("list", 6usize), ("dict", 6), ("grid", 4), ("mix", 12), ("mix", 30)] {
+        ctx.case("failwriter", &format!("v {}", vx::show(&crate::c02::wf_chain(kind, depth))));
     }
     // timestamps whose LOCAL time is ambiguous or special in their zone (both passes of the repeated hour at the end of
     // daylight saving time, the instants around the skipped hour, offsets with seconds), with sub-second parts:
